@@ -7,6 +7,7 @@ import (
 	"github.com/invopop/gobl/currency"
 	"github.com/invopop/gobl/i18n"
 	"github.com/invopop/gobl/org"
+	"github.com/invopop/gobl/regimes/common"
 	"github.com/invopop/gobl/tax"
 )
 
@@ -24,6 +25,9 @@ func New() *tax.RegimeDef {
 			i18n.EN: "India",
 		},
 		TimeZone: "Asia/Kolkata",
+		Tags: []*tax.TagSet{
+			common.InvoiceTags(),
+		},
 		Scenarios: []*tax.ScenarioSet{
 			invoiceScenarios,
 		},
